@@ -181,6 +181,21 @@ func (p *Primary) OnWALBatchWritten(startSeq uint64, entries []*wal.Entry) {
 	}
 }
 
+// OnWALRotated is called when the storage layer replaces the WAL (rotation at
+// flush): entries are read from and sequence numbers taken from the new one
+func (p *Primary) OnWALRotated(newWAL *wal.WAL) {
+	p.mu.Lock()
+	defer p.mu.Unlock()
+	p.wal = newWAL
+}
+
+// currentWAL returns the WAL to read from
+func (p *Primary) currentWAL() *wal.WAL {
+	p.mu.RLock()
+	defer p.mu.RUnlock()
+	return p.wal
+}
+
 // OnWALSync implements WALEntryObserver.OnWALSync
 func (p *Primary) OnWALSync(upToSeq uint64) {
 	p.mu.Lock()
@@ -279,7 +294,7 @@ func (p *Primary) StreamWAL(
 			return ctx.Err()
 		case <-ticker.C:
 			// Check if we have new entries to send
-			currentSeq := p.wal.GetNextSequence() - 1
+			currentSeq := p.currentWAL().GetNextSequence() - 1
 			if currentSeq > session.LastAckSequence {
 				log.Info("Checking for new entries: currentSeq=%d > lastAck=%d",
 					currentSeq, session.LastAckSequence)
@@ -811,7 +826,7 @@ func (p *Primary) maybeManageWALRetention() {
 		MinSequenceKeep: minAcknowledgedSeq,
 	}
 
-	filesDeleted, err := p.wal.ManageRetention(config)
+	filesDeleted, err := p.currentWAL().ManageRetention(config)
 	if err != nil {
 		log.Error("Failed to manage WAL retention: %v", err)
 		return
@@ -833,7 +848,7 @@ func (p *Primary) Close() error {
 	}
 
 	// Unregister from WAL
-	p.wal.UnregisterObserver("primary_replication")
+	p.currentWAL().UnregisterObserver("primary_replication")
 
 	// Close all replica sessions
 	p.mu.Lock()
